@@ -45,7 +45,7 @@ type V struct {
 	B   *Bytes
 	Fn  *Fun
 	E   *Err
-	Src *sx.N // syntax origin, for forms read from source
+	Src *sx.N  // syntax origin, for forms read from source
 	Via string // KFun: the symbol this function value was last fetched through (names the frame of an otherwise unnamed function)
 }
 
@@ -103,6 +103,8 @@ type Err struct {
 	Unsure bool // the model declines to predict (construct outside its scope)
 	ID     int
 	Class  string // coarse class for coverage: unbound, arity, type, user, …
+
+	Rethrown int // how often (rethrow) re-raised this error
 }
 
 var (
